@@ -58,11 +58,13 @@ Inject ==
     /\ obs' = Ack("injected")
     /\ UNCHANGED <<lazy, now, serial, inflight, handles, dump, dumpOf, mirror, lastq, nops, hist, loose>>
 
-\* observed TTLs: computed value, or up to Skew seconds older
+\* observed TTLs: computed value, or up to Skew seconds older.  An event may carry its own bound ("skew": 0
+\* when the harness measured that less than one second of wall clock passed since the entry was stored).
+EvSkew == IF "skew" \in DOMAIN Ev THEN Ev.skew ELSE Skew
 TTLsMatch(o, v, e) ==
     /\ DOMAIN o.ttls = DOMAIN v.ttls
     /\ IF v.res = "stale" THEN o.ttls = v.ttls
-       ELSE \E s \in 0..Skew : \A j \in DOMAIN o.ttls : o.ttls[j] = Max2(1, e.r.ttls[j] - (now + s - e.stored))
+       ELSE \E s \in 0..EvSkew : \A j \in DOMAIN o.ttls : o.ttls[j] = Max2(1, e.r.ttls[j] - (now + s - e.stored))
 
 ExecHit(i, q, o) ==
     LET k == KeyOf(q) v == View(i, k) IN
@@ -91,6 +93,15 @@ ExecMiss(i, q, r, sid) ==
                   \/ cache' = c2
     /\ UNCHANGED inflight
 
+\* a miss that was answered without an upstream exchange of its own: it may only share the exchange of a
+\* concurrent query for the SAME question (equal key)
+ExecJoined(i, q, o, r) ==
+    /\ o.owner.n = q.n /\ o.owner.t = q.t /\ o.owner.c = q.c /\ o.owner.f \in {q.f, -1}
+    /\ o.idok
+    /\ \/ cache' = Store(i, KeyOf(q), q, r, o.id)
+       \/ i \in loose /\ cache' = cache
+    /\ UNCHANGED inflight
+
 ExecEv ==
     /\ IsEvent("Exec")
     /\ LET i == Ev.i q == Ev.q o == Ev.o IN
@@ -101,6 +112,7 @@ ExecEv ==
        /\ CASE o.res = "bypass" -> q.k # "std" /\ UNCHANGED <<cache, inflight>>
             [] o.res = "hit" -> q.k = "std" /\ ExecHit(i, q, o)
             [] o.res = "miss" -> q.k = "std" /\ ExecMiss(i, q, Ev.r, Ev.sid)
+            [] o.res = "joined" -> q.k = "std" /\ ExecJoined(i, q, o, Ev.r)
             [] OTHER -> FALSE
     /\ mirror' = IF cache' # cache THEN <<>> ELSE mirror
     /\ UNCHANGED <<lazy, now, serial, handles, dump, dumpOf, nops, hist, loose>>
@@ -111,6 +123,7 @@ ExecEv ==
 \* never allowed.
 RefreshStart ==
     /\ IsEvent("RefreshStart")
+    /\ ("hasresp" \in DOMAIN Ev) => ~Ev.hasresp     \* the refresh runs the chain on a context WITHOUT response
     /\ LET k == KeyOf(Ev.q)
            pend == {f \in inflight : f.i = Ev.i /\ f.rid = 0}
            same == {f \in pend : f.key = k} IN
